@@ -26,10 +26,35 @@ RIGHT_ONLY = {'append', 'extend'}
 READ_ONLY = {'copy', 'count', 'index', '__len__'}
 
 
-def ring_of(expr):
+_ALIASES = {}
+
+
+def ring_aliases(fnode):
+    """locals of a function that are plain aliases of a ring buffer: x = self.full.spy / a, b = self.rtc.spy, self.full.spy"""
+    key = id(fnode)
+    if key in _ALIASES:
+        return _ALIASES[key]
+    out = {}
+    for n in ast.walk(fnode):
+        if isinstance(n, ast.Assign) and len(n.targets) == 1:
+            tg, vv = n.targets[0], n.value
+            pairs = list(zip(tg.elts, vv.elts)) if isinstance(tg, ast.Tuple) and isinstance(vv, ast.Tuple) and len(tg.elts) == len(vv.elts) else [(tg, vv)]
+            for t_, v_ in pairs:
+                if isinstance(t_, ast.Name):
+                    d = dotted(v_)
+                    for r in RINGS:
+                        if d and d.endswith('.' + r):
+                            out[t_.id] = (r, n)
+    _ALIASES[key] = out
+    return out
+
+
+def ring_of(expr, aliases=None):
     d = dotted(expr)
     if not d:
         return None
+    if aliases and isinstance(expr, ast.Name) and expr.id in aliases:
+        return aliases[expr.id][0]
     for r in RINGS:
         if d.endswith('.' + r):
             return r
@@ -184,11 +209,23 @@ def check(run, model, tier):
         run.inst('SPY.markers', inn, 'queue reflection goes to step log and full log together', ok, 'reflection written to %s' % rings, obligation=True)
     # ---- accumulate
     n_ext = 0
+    held_across = []
     for f in model.all_funcs():
+        al = ring_aliases(f.node)
         for c in shallow_calls(f.node):
             if not isinstance(c.func, ast.Attribute):
                 continue
-            ring = ring_of(c.func.value)
+            ring = ring_of(c.func.value, al)
+            if ring is not None and isinstance(c.func.value, ast.Name) and c.func.value.id in al:
+                # an alias taken before the wrapped step and used after it keeps the *object*, not the field
+                fac_ = cg.factory_of_inner(f)
+                if fac_ is not None:
+                    gg_ = cfg_of(f)
+                    an = [n for n in gg_.nodes if n.kind == 'stmt' and n.ast is al[c.func.value.id][1]]
+                    un = [n for n in gg_.nodes if n.kind not in ('entry', 'exit', 'xexit', 'def') and any(x is c for x in n.walk())]
+                    steps_ = [n for n in gg_.nodes if wrap.fn_calls_in(n, fac_.params[0])]
+                    if an and un and any(gg_.exists_path(an[0], s_) and gg_.exists_path(s_, un[0]) for s_ in steps_):
+                        held_across.append((f, ring, c))
             if ring is None:
                 continue
             m = c.func.attr
@@ -218,7 +255,7 @@ def check(run, model, tier):
                      '' if ok else '%s is modified with %s: the ring no longer keeps the most recent entries in order' % (ring, m), node=c, obligation=True)
             if ring == 'full.spy' and m == 'extend':
                 n_ext += 1
-                ok = c.args and ring_of(c.args[0]) == 'rtc.spy'
+                ok = c.args and ring_of(c.args[0], al) == 'rtc.spy'
                 gg = cfg_of(f)
                 node = [n for n in gg.nodes if n.kind not in ('entry', 'exit', 'xexit', 'def') and any(x is c for x in n.walk())]
                 fac = cg.factory_of_inner(f)
@@ -232,7 +269,7 @@ def check(run, model, tier):
                 if inst_steps:
                     cnt = queues.count(gg, node, start=inst_steps[0])
                     run.inst('SPY.accumulate', f, 'exactly one extend after the step', cnt == (1, 1), 'extends after the step: %s' % (cnt,), node=c, obligation=True)
-    run.floor('full.spy.extend sites', n_ext, 2)
+    run.floor('full.spy.extend sites', n_ext, 1)
     # ---- ring construction
     n_ring = 0
     for f in model.all_funcs():
@@ -245,4 +282,21 @@ def check(run, model, tier):
                 run.inst('RING.right-end', f, 'ring %s is a bounded deque' % [ring_of(t) for t in st.targets if ring_of(t)][0], ok,
                          '' if ok else 'ring buffer created as %s' % norm(v), node=st, obligation=True)
     run.floor('ring buffer constructions', n_ring, 4)
+    # a ring reference held across the wrapped step is only sound if that ring is never replaced after construction
+    rebinds = {}
+    for f in model.all_funcs():
+        if f.name in ('__init__', 'init_rtc'):
+            continue
+        for st in walk_shallow(f.node):
+            if isinstance(st, ast.Assign):
+                for t in st.targets:
+                    r_ = ring_of(t)
+                    if r_:
+                        rebinds.setdefault(r_, []).append((f, st))
+    for f, ring, c in held_across:
+        rb = rebinds.get(ring, [])
+        run.inst('SPY.accumulate', f, 'reference to %s held across the wrapped step' % ring, not rb,
+                 '' if not rb else ('%s takes a reference to %s before the wrapped step and writes through it afterwards, while %s replaces that ring with a new object: '
+                                    'if the replacement happens during the step (a handler or another thread calls it) the step\'s lines go to the discarded ring and never '
+                                    'reach the log' % (f.qualname, ring, ', '.join(x.qualname for x, _s in rb))), node=c, obligation=True)
     run.assume('all handler calls of the processor go through the handler object given to start_at/trans (decorated by spy_on when instrumented)')
